@@ -262,6 +262,34 @@ fn environments_part<V: Variant>(ctx: &mut Ctx, tier: Tier, keys: &[KeyCtx<V>]) 
     let mut part = Part::new(&format!("keys_messages_streams_{}", V::N), &format!("{} keys x 7 messages (empty, 1 byte, 'data1', 95/96/97 bytes (salt||msg crosses the SHAKE rate at 96), 64 KiB) x {{production thread_rng, {} fixed ChaCha streams}}", keys.len(), streams.len()));
     part.exhaustive = true;
     t.into_part(ctx, part);
+
+    // message length ladder: "every message of any length"
+    let top: usize = if tier.thorough() { 2100 } else { 600 };
+    let mut lens: Vec<usize> = (0..=top).collect();
+    for k in [12usize, 13, 14, 16, 18] {
+        lens.extend([(1 << k) - 41, (1 << k) - 40, (1 << k) - 1, 1 << k, (1 << k) + 1]);
+    }
+    let t = lens
+        .par_iter()
+        .map(|&l| {
+            let mut t = Tally::default();
+            let k = &keys[0];
+            for content in 0..2 {
+                let msg: Vec<u8> = if content == 0 { vec![0x5au8; l] } else { (0..l).map(|i| (i as u32).wrapping_mul(2654435761).rotate_left(9) as u8).collect() };
+                t.cases += 1;
+                t.calls += 2;
+                let case = || json!({"kind":"length","variant":V::N,"seed":k.seed,"msg_len":l,"content":content});
+                match catch(|| with_stream(12 + content as u64, || V::sign(&msg, &k.sk))) {
+                    Ok(sig) => judge_sig::<V>(&mut t, &msg, &sig, &k.pk, &k.h, "length-ladder", &case),
+                    Err(m) => t.viol(format!("sign-fails:n={}:length-ladder", V::N), format!("{}::sign failed on a message of {} bytes: {}", V::name(), l, m), case()),
+                }
+            }
+            t
+        })
+        .reduce(Tally::default, reduce);
+    let mut part = Part::new(&format!("message_length_ladder_{}", V::N), &format!("one key x every message length 0..={} and lengths around 2^12 .. 2^18 ({} lengths) x two contents (constant, position-dependent), fixed signer streams: the signature verifies and the reference Algorithm 16 accepts it", top, lens.len()));
+    part.exhaustive = true;
+    t.into_part(ctx, part);
 }
 
 // ------------------------------------------------------------ E4: histories and interleavings
@@ -487,6 +515,23 @@ pub fn replay(case: &Value) -> Result<Option<String>, String> {
                 t.found.into_iter().next().map(|(_, f)| f.what)
             }
             Ok(if variant == 512 { one::<V512>(seed, &msg, stream, &devs) } else { one::<V1024>(seed, &msg, stream, &devs) })
+        }
+        "length" => {
+            let variant = case.get("variant").and_then(|x| x.as_u64()).ok_or("variant")?;
+            let seed = case.get("seed").and_then(|x| x.as_u64()).ok_or("seed")?;
+            let l = case.get("msg_len").and_then(|x| x.as_u64()).ok_or("msg_len")? as usize;
+            let content = case.get("content").and_then(|x| x.as_u64()).unwrap_or(0);
+            let msg: Vec<u8> = if content == 0 { vec![0x5au8; l] } else { (0..l).map(|i| (i as u32).wrapping_mul(2654435761).rotate_left(9) as u8).collect() };
+            fn one<V: Variant>(seed: u64, msg: &[u8], content: u64) -> Option<String> {
+                let k = make_key::<V>(seed);
+                let mut t = Tally::default();
+                match catch(|| with_stream(12 + content, || V::sign(msg, &k.sk))) {
+                    Ok(sig) => judge_sig::<V>(&mut t, msg, &sig, &k.pk, &k.h, "replay", &|| json!({})),
+                    Err(e) => return Some(format!("sign failed: {}", e)),
+                }
+                t.found.into_iter().next().map(|(_, f)| f.what)
+            }
+            Ok(if variant == 512 { one::<V512>(seed, &msg, content) } else { one::<V1024>(seed, &msg, content) })
         }
         _ => Err("re-run ./vf check C01 (histories and interleavings are enumerated deterministically)".into()),
     }
